@@ -145,7 +145,7 @@ def big_special_keys():
     return sorted(k for k, v in V.items() if len(v) > 1)
 
 
-def special_ok(ex, t, N):
+def special_ok(ex, t, N, src=None):
     """Special token: its text is a key of the table; keys whose value is
     longer than one character need the span clause (table lemma:
     len(V[k]) <= len(k), checked by evaluation in props)"""
@@ -153,6 +153,8 @@ def special_ok(ex, t, N):
     txt = t.fields['txt']
     iskey = Or(*[sym.seq_eq(txt, k) for k in V])
     big = Or(*[sym.seq_eq(txt, k) for k in big_special_keys()])
+    if src is not None:
+        return And(iskey, Implies(big, And(span(t, N), exact(t, src))))
     return And(iskey, Implies(big, span(t, N)))
 
 
@@ -170,7 +172,7 @@ def ok(ex, t, src, with_exact=True):
         if t.cls in TEXTY:
             parts.append(span(t, N))
         if t.cls == D + 'SpecialToken':
-            parts.append(special_ok(ex, t, N))
+            parts.append(special_ok(ex, t, N, src if with_exact else None))
         if t.cls == D + 'VerbatimToken':
             fx = zbool(t.fields['pos_fix'])
             p = zint(t.fields['pos'])
@@ -197,7 +199,8 @@ def ok(ex, t, src, with_exact=True):
              Implies(cls_is(ex, t, *NONEMPTY), L >= 1),
              Implies(cls_is(ex, t, *EMPTYCLS), L == 0),
              Implies(texty, span(t, N)),
-             Implies(special, special_ok(ex, t, N)),
+             Implies(special, special_ok(ex, t, N,
+                                         src if with_exact else None)),
              Implies(verb, Or(fx, p + L <= zint(N))),
              Implies(And(verb, zbool(tfield(t, 'environ', False)), Not(fx)),
                      p + L < zint(N)),
